@@ -55,6 +55,7 @@ def perturbed(spec):
     for _ in range(int(spec.get('burn', 0)) + 1):
       random.random()
   off = spec.get('clock_offset')
+  trial_globals = None
   if off:
     real_time = saved_time
 
@@ -70,13 +71,27 @@ def perturbed(spec):
       def utcnow(cls):
         return cls.utcfromtimestamp(real_time() + off)
     time.time = fake_time
-    datetime.datetime = ShiftedDateTime
+    # The shift must be CONSISTENT: vz.Trial's creation_time default is the bound method
+    # `datetime.datetime.now` captured when the class was defined (GP-UCB-PE compares
+    # completion times with creation times).  Its attrs-generated __init__ reads the factory
+    # from its globals; point that at the shifted clock too — or leave datetime alone.
+    try:
+      from vizier import pyvizier as vz
+      g = vz.Trial.__init__.__globals__
+      if '__attr_factory_creation_time' in g:
+        trial_globals = (g, g['__attr_factory_creation_time'])
+        g['__attr_factory_creation_time'] = lambda: datetime.datetime.now()
+        datetime.datetime = ShiftedDateTime
+    except Exception:  # pylint: disable=broad-except
+      pass
   try:
     if spec.get('unrelated'):
       unrelated_study(int(spec.get('unrelated')))
     yield
   finally:
     time.time, datetime.datetime = saved_time, saved_dt
+    if trial_globals is not None:
+      trial_globals[0]['__attr_factory_creation_time'] = trial_globals[1]
 
 
 def unrelated_study(seed):
